@@ -1,4 +1,226 @@
-import OvniModel.Rt.Fs
+import OvniModel.Lemmas.FsGlobal
+import OvniModel.Lemmas.FsWitness
+
+/-!
+# C09 — crash consistency
+
+Model: `OvniModel/Rt/Fs.lean`.  The process is killed when `k` of the libc
+calls of the run have completed (`crashState`); what a reader then finds in a
+file is its on-disk bytes plus *any* prefix of the bytes still in the stdio
+buffer (`Fs.visible … cut`).  `accepts` is (a superset of) what `ovniemu`
+accepts: every stream.json found parses with `finished = 1`, its stream.obs
+has the header, tiles into events and leaves the thread dead.
+
+* `crash_consistent_partial` — direct mode, or OVNI_TMPDIR mode when readdir
+  returns stream.obs before stream.json: for every program, every crash point,
+  every stdio state and both trees: accepted ⇒ every visible stream holds
+  exactly the bytes its thread has flushed.
+* `finished_after_data_partial` — same hypotheses: finished = 1 visible in the
+  final tree ⇒ the final stream.obs is complete.
+* `crash_consistent_fails`, `finished_after_data_fails` — for the code as it
+  stands the full statements (every readdir order) are FALSE: witness with
+  stream.json relocated first (key `tmpdir-json-before-obs`).
+-/
 namespace Ovni.Props.C09
-theorem placeholder : True := trivial
+open Ovni.Rt Ovni.Rt.Fs
+
+/-- The file system when the process is killed after `k` completed calls. -/
+def crashState (C : Codec) (p : Prog) (k : Nat) : Fs := run p.init (ops ((calls C.ser p).take k))
+
+/-- Threads have distinct tids. -/
+def WellFormed (p : Prog) : Prop := (p.threads.map (·.tid)).Nodup
+
+/-- readdir returns the entries of a thread directory in some order. -/
+def ReaddirOrder (p : Prog) : Prop := p.order.Perm [.dot, .dotdot, .f .obs, .f .json]
+
+/-- … and stream.obs comes before stream.json. -/
+def ObsFirst (p : Prog) : Prop := streamEntries p.order = [.obs, .json]
+
+/-- Accepted by the emulator ⇒ every visible stream contains (is exactly) what
+    its thread had flushed when the process was killed. -/
+def CrashConsistent (E : EmuCfg) (C : Codec) (p : Prog) : Prop :=
+  ∀ (k : Nat) (cut : Path → Nat) (r : Root),
+    accepts E C (crashState C p k) cut r = true →
+    ∀ tid ∈ visibleStreams (crashState C p k) r,
+      (crashState C p k).visible cut (.file r tid .obs) = some ((crashState C p k).flushed tid)
+
+/-- finished = 1 visible in the final tree ⇒ the final stream.obs holds every
+    byte the thread flushes in its whole life. -/
+def FinishedAfterData (C : Codec) (p : Prog) : Prop :=
+  ∀ (k : Nat) (cut : Path → Nat), ∀ t ∈ p.threads, ∀ j,
+    (crashState C p k).visible cut (.file .fin t.tid .json) = some j → jsonFinished C j = true →
+    (crashState C p k).visible cut (.file .fin t.tid .obs) = some t.obsBytes
+
+/-! ### lemmas local to the statement -/
+
+theorem get_isSome_of_mem (fs : Fs) (q : Path) (n : Node) (h : (q, n) ∈ fs) : (fs.get q).isSome = true := by
+  induction fs with
+  | nil => cases h
+  | cons e es ih =>
+    obtain ⟨q', n'⟩ := e
+    simp only [Fs.get]
+    by_cases hq : q' = q
+    · simp [hq]
+    · rw [if_neg hq]
+      simp only [List.mem_cons, Prod.mk.injEq] at h
+      rcases h with ⟨h1, _⟩ | h
+      · exact absurd h1.symm hq
+      · exact ih h
+
+theorem isSome_of_visibleStream (fs : Fs) (r : Root) (tid : Nat) (h : tid ∈ visibleStreams fs r) :
+    (fs.get (.file r tid .json)).isSome = true := by
+  simp only [visibleStreams, List.mem_filterMap] at h
+  obtain ⟨⟨q, n⟩, hmem, heq⟩ := h
+  split at heq
+  · rename_i r' t' d pn hpair
+    split at heq
+    · rename_i hr
+      simp only [Option.some.injEq] at heq
+      simp only [Prod.mk.injEq] at hpair
+      obtain ⟨rfl, rfl⟩ := hpair
+      subst hr; subst heq
+      exact get_isSome_of_mem fs _ _ hmem
+    · cases heq
+  · cases heq
+
+/-- Every prefix of the run leaves every thread's entries in a state
+    satisfying the thread invariant. -/
+theorem tinv_at_crash (C : Codec) (p : Prog) (hwf : WellFormed p) (hm : p.tmpMode = false ∨ ObsFirst p)
+    (t : ThreadProg) (ht : t ∈ p.threads) (k : Nat) : TInv C t (viewOf (crashState C p k) t.tid) := by
+  obtain ⟨k', hk'⟩ := view_at_crash C.ser p t ht hwf k
+  unfold crashState
+  rw [hk']
+  cases hp : p.tmpMode with
+  | false => exact (thread_direct C p t hp _ rfl).1 k'
+  | true =>
+    rcases hm with hm | hm
+    · rw [hp] at hm; cases hm
+    · exact (thread_tmp_obs_first C p t hp hm _ rfl).1 k'
+
+theorem visible_of_view (s : Fs) (cut : Path → Nat) (r : Root) (tid : Nat) :
+    s.visible cut (.file r tid .obs) =
+      match (viewOf s tid).o r with
+      | some (.file d pn) => some (d ++ pn.take (cut (.file r tid .obs)))
+      | _ => none := by
+  cases r <;> simp only [Fs.visible, viewOf, View.o] <;> split <;> simp_all
+
+/-! ### C09 -/
+
+theorem crash_consistent_partial (E : EmuCfg) (C : Codec) (p : Prog) (hwf : WellFormed p)
+    (hm : p.tmpMode = false ∨ ObsFirst p) : CrashConsistent E C p := by
+  intro k cut r hacc tid hvis
+  have hj := isSome_of_visibleStream _ r tid hvis
+  have hsa : streamAccepted E C (crashState C p k) cut r tid = true := by
+    simp only [accepts, List.all_eq_true] at hacc
+    exact hacc tid hvis
+  by_cases hex : ∃ t ∈ p.threads, t.tid = tid
+  · obtain ⟨t, ht, rfl⟩ := hex
+    have inv := tinv_at_crash C p hwf hm t ht k
+    have hs : Safe (viewOf (crashState C p k) t.tid) r := by cases r; exact inv.safeT; exact inv.safeF
+    rw [visible_of_view]
+    rcases hs with h | ⟨d, h1, h2⟩ | h
+    · -- no stream.obs: not accepted
+      exfalso
+      simp only [streamAccepted, Bool.and_eq_true] at hsa
+      have := hsa.2
+      rw [visible_of_view, h] at this
+      simp at this
+    · rw [h1, Fs.flushed_eq]
+      simp only [List.take_nil, List.append_nil]
+      congr 1
+      exact h2.symm
+    · exfalso
+      have : (viewOf (crashState C p k) t.tid).j r = (crashState C p k).get (.file r t.tid .json) := by
+        cases r <;> rfl
+      rw [this] at h
+      rw [h] at hj
+      cases hj
+  · exfalso
+    have hv := view_of_stranger C.ser p tid (fun t ht e => hex ⟨t, ht, e.symm⟩) k
+    have : (crashState C p k).get (.file r tid .json) = none := by
+      have h2 : (viewOf (crashState C p k) tid).j r = none := by
+        unfold crashState; rw [hv]; cases r <;> rfl
+      cases r <;> exact h2
+    rw [this] at hj
+    cases hj
+
+theorem finished_after_data_partial (C : Codec) (p : Prog) (hwf : WellFormed p)
+    (hm : p.tmpMode = false ∨ ObsFirst p) : FinishedAfterData C p := by
+  intro k cut t ht j hj hfin
+  have inv := (tinv_at_crash C p hwf hm t ht k).fad
+  have hvj : (crashState C p k).get (.file .fin t.tid .json) = (viewOf (crashState C p k) t.tid).jf := rfl
+  rcases inv with h | ⟨d, pn, m, h1, h2, h3⟩ | h
+  · exfalso
+    simp only [Fs.visible, hvj, h] at hj
+    cases hj
+  · exfalso
+    simp only [Fs.visible, hvj, h1, Option.some.injEq] at hj
+    subst hj
+    have hpre : (d ++ pn.take (cut (.file .fin t.tid .json))) <+: C.ser m :=
+      List.IsPrefix.trans ((List.prefix_append_right_inj d).mpr (List.take_prefix _ pn)) h3
+    by_cases he : d ++ pn.take (cut (.file .fin t.tid .json)) = C.ser m
+    · simp only [jsonFinished, he, C.parse_ser, h2] at hfin
+      cases hfin
+    · simp only [jsonFinished, C.parse_prefix m _ hpre he] at hfin
+      cases hfin
+  · rw [visible_of_view]
+    simp only [View.o, h, List.take_nil, List.append_nil]
+
+/-! ### the code as it stands: the full statements are false
+
+-- OPEN: theorem crash_consistent (E C p) : WellFormed p → ReaddirOrder p → CrashConsistent E C p
+-- OPEN: theorem finished_after_data (C p) : WellFormed p → ReaddirOrder p → FinishedAfterData C p
+Both are refuted below for the present `move_thdir_to_final`, which copies
+the files in readdir order.  They hold (`…_partial`) once stream.obs is
+relocated before stream.json; after such a fix `ObsFirst` becomes a property
+of the code instead of a hypothesis on readdir. -/
+
+open Ovni.Rt.Fs.Witness
+
+/-- Witness (key `tmpdir-json-before-obs`): `OHx OHe flush flush free` in
+    OVNI_TMPDIR mode, readdir gives stream.json first; the process is killed
+    after the `fwrite` of the stream.obs copy, stdio having flushed the bytes up
+    to OHe.  The final tree has finished = 1, a stream ending in OHe — accepted —
+    and lacks the flushed `OF[ OF]`. -/
+theorem crash_consistent_fails :
+    ¬ ∀ (E : EmuCfg) (C : Codec) (p : Prog), WellFormed p → ReaddirOrder p → CrashConsistent E C p := by
+  intro h
+  have := h wE wC wJsonFirst (by unfold WellFormed; decide) (by unfold ReaddirOrder; decide) 48 wCut .fin
+    (by decide) 7 (by decide)
+  revert this
+  decide
+
+/-- Same run killed right after stream.json was relocated: finished = 1 is
+    visible in the final tree, stream.obs is not there yet. -/
+theorem finished_after_data_fails :
+    ¬ ∀ (C : Codec) (p : Prog), WellFormed p → ReaddirOrder p → FinishedAfterData C p := by
+  intro h
+  have := h wC wJsonFirst (by unfold WellFormed; decide) (by unfold ReaddirOrder; decide) 43 (fun _ => 0) wT
+    (by decide) (wC.ser ⟨true, 1⟩) (by decide) (by decide)
+  revert this
+  decide
+
+/-! ### non-vacuity -/
+
+/-- The hypotheses of the partial theorems are satisfiable, in both modes. -/
+example : WellFormed wObsFirst ∧ ReaddirOrder wObsFirst ∧ ObsFirst wObsFirst ∧ wObsFirst.tmpMode = true := by
+  refine ⟨by unfold WellFormed; decide, by unfold ReaddirOrder; decide, by unfold ObsFirst; decide, rfl⟩
+
+example : WellFormed wDirect ∧ wDirect.tmpMode = false := ⟨by unfold WellFormed; decide, rfl⟩
+
+/-- … and the premise of `CrashConsistent` is reachable: the completed
+    relocation (and a crash in the middle of the json copy, with the whole
+    text already flushed by stdio) is accepted with a visible stream. -/
+example : accepts wE wC (crashState wC wObsFirst 58) (fun _ => 0) .fin = true
+    ∧ visibleStreams (crashState wC wObsFirst 58) .fin = [7] := by decide
+
+example : accepts wE wC (crashState wC wObsFirst 49) (fun _ => 4) .fin = true
+    ∧ visibleStreams (crashState wC wObsFirst 49) .fin = [7]
+    ∧ (crashState wC wObsFirst 49).visible (fun _ => 4) (.file .fin 7 .obs) = some wT.obsBytes := by decide
+
+/-- A crash before `ovni_thread_free` in direct mode leaves a visible stream
+    that the emulator rejects (no finished flag). -/
+example : accepts wE wC (crashState wC wDirect 17) (fun _ => 0) .fin = false
+    ∧ visibleStreams (crashState wC wDirect 17) .fin = [7] := by decide
+
 end Ovni.Props.C09
